@@ -48,6 +48,10 @@ SL3 = [slots(r, (1, 1, 1)) for r in [(1, 1, 0), (1, 0, 0), (1, 1, 1), (0, 0, 0)]
 ISO_QUICK = [{'SRC': k, 'H': 1, 'PRES': m} for k in (0, 1) for m in range(1, 8)]
 ISO_THOROUGH = [{'SRC': k, 'H': h, 'PRES': m} for k in (0, 1) for h in (0, 1, 5) for m in range(1, 8)]
 
+# ---- execute enter/leave: PRE (foreign-occupied slots), CK1 = boundary of T0 at which T1 enters, CK2 = first boundary at which T1 leaves
+EXEC_ALL = [{'CPRE': p, 'CK1': a, 'CK2': b} for p in (0, 1, 2) for a in range(12) for b in range(a, 12)]
+EXEC_QUICK = [{'CPRE': p, 'CK1': a, 'CK2': b} for p in (1, 2) for a in (0, 1, 3, 4, 5, 6, 7, 8, 10) for b in (a, 11)] + \
+             [{'CPRE': 0, 'CK1': a, 'CK2': b} for a in (0, 3, 5, 7) for b in (a, 11)]
 SER_BOUNDS = {'soft limit': '0..INT_MAX', 'total request': '0..INT_MAX', 'delta per update': 'any int keeping the total in 0..INT_MAX',
               'mandatory requests': 'any non-negative int', 'threads': 'sequential (the aggregating path of update(); concurrent aggregation is outside)'}
 # ---- iso_dispatch (added by the C03 builder on the coordinator's request): the dispatcher's own isolation bookkeeping on the one-thread
@@ -90,9 +94,11 @@ HARNESSES = [
        bounds={'threads': 2, 'slots': 3, 'reserved': 1, 'free_rounds': '1 quick / 2 thorough', 'forced_rounds': 2, 'loop unroll': 3, 'visits per thread': '1 quick; thorough also (2,1)',
                'symbolic': 'schedule, slot hints, RNG state, allotment, foreign-occupied slots'}),
   dict(name='exec_leave', unit='execseq', harness='h_exec_seq.c', defines={'NSLOTS': 2, 'NRES': 1, 'NPOINTS': 16},
-       scenarios=[{}], cbmc=['--unwind', '8', '--object-bits', '10'] + FS, timeout=1200,
-       desc='enter/leave path of task_arena::execute (occupy_free_slot<false>, nested_arena_context constructor and destructor) with the scheduler-observer callbacks as harness stubs; thread T1 runs its complete enter and its complete leave at solver-chosen boundary calls of thread T0: between on_scheduler_entry and the return of on_scheduler_exit no two threads hold the same index, the slot is still owned by the caller when on_scheduler_exit runs, at most max_concurrency threads inside, one exit per entry on the same thread, thread restored to its home arena',
-       bounds={'threads': 2, 'slots': 2, 'reserved': 1, 'interleaving': 'T1 enter / leave atomic, placed at any of the boundary calls of T0 (observer callbacks, adjust_demand, notify_one, wrapper observer points)', 'symbolic': 'placement K1 <= K2, foreign-occupied slots (incl. only one free slot), RNG state'}),
+       scenarios=EXEC_QUICK, scenarios_thorough=EXEC_ALL, cbmc=['--unwind', '8', '--object-bits', '10'], timeout=600,
+       desc='enter/leave path of task_arena::execute (occupy_free_slot<false>, nested_arena_context constructor and destructor) with the scheduler-observer callbacks as harness stubs; thread T1 runs its complete enter at boundary call CK1 of thread T0 and its complete leave at the first boundary >= CK2 (one query per placement): between on_scheduler_entry and the return of on_scheduler_exit no two threads hold the same index, the slot is still marked occupied and owned by the caller when on_scheduler_exit runs, at most max_concurrency threads inside, one exit per entry on the same thread with the same index, waiters woken only after release, thread restored to its home arena, demand deltas cancel',
+       bounds={'threads': 2, 'slots': 2, 'reserved': 1, 'foreign-occupied slots PRE': '0, 1, 2 (1 and 2 = only one free slot), concrete per query',
+               'interleaving': 'T1 enter / leave atomic, placed at the 11 boundary calls of T0 (before/after each observer callback body, adjust_demand, notify_one, wrapper observer points); concrete per query: quick 44 placements, thorough all 78 x 3',
+               'symbolic': 'RNG state of both threads only - placements are enumerated, the solver decides little here (cbmc executes the real code per placement)'}),
   dict(name='slots_3t', unit='slots3', harness='h_slots.c', defines={'NT': 3, 'NSLOTS': 3, 'NRES': 1, 'ROUNDS': 1},
        scenarios=SL3[:1], scenarios_thorough=SL3, cbmc=['--unwind', '8', '--object-bits', '12'], timeout=1200,
        thorough_override={'timeout': 3600},
@@ -121,13 +127,14 @@ HARNESSES += [
        bounds={'tasks': 10, 'threads': 1, 'tags': 'X, Y, Z any 64-bit words; V, Q concrete per query', 'spawning bodies': 'every subset of {P, C, F, B}', 'critical stream': 'cut to its pop/pop_specific contract'}),
 ]
 MANIFEST = dict(
-  level_text='Bounded symbolic execution / bounded model checking of the real arena and worker-budget code. (1) Worker budget: one real operation (threading_control_impl::adjust_demand or set_active_num_workers through the thread_request_serializer proxy, market::adjust_demand, arena::update_request and market::update_allotment) from an arbitrary reachable market state of 3 arenas over <=3 priority levels with symbolic demands <=7 (15 thorough) and any soft limit: allotments sum to min(total demand, limit) (exactly one mandatory worker at limit 0, to an arena with enqueued work), none exceeds its demand, higher priority is saturated first, split is proportional, and the number of threads requested from RML equals min(total, effective limit) for every int-valued total/limit/delta (inductive step over the serializer invariant). (2) Slots: for 2-3 threads entering and leaving one arena (workers via try_join/occupy_free_slot<true>/on_thread_leaving, externals via occupy_free_slot<false>) every interleaving within the round bound: slot indices pairwise distinct and below num_slots, workers never in reserved slots, my_limit covers occupied slots, reference word restored. (3) Isolation: arena_slot::get_task and steal_task on pools of 3 entries with symbolic 64-bit isolation tags only return tasks of the waiter\'s isolation scope and leave every skipped task in place.',
-  level_note='Bounds per harness in evidence. Callers that contain the dispatch loop (arena::process, task_arena_impl::execute) are cut: thread bodies replay their call sequence around the slot window; arenas are white-box storage with the constructor\'s scalar fields (real allocate_arena too heavy). Outside the claim: isolation filtering of the affinity mailbox and the critical task stream (queries did not come under control), the dispatch loop, global_control, observer entry/exit pairing, the end-to-end L-1 worker count, concurrent aggregation in thread_request_serializer::update, more than 3 arenas/threads/slots, non-SC memory. Trusted: clang-14 IR, tools/ir2c.py (selftest differential on the sequential units), cbmc.',
+  level_text='Bounded symbolic execution / bounded model checking of the real arena and worker-budget code. (1) Worker budget: one real operation (threading_control_impl::adjust_demand or set_active_num_workers through the thread_request_serializer proxy, market::adjust_demand, arena::update_request and market::update_allotment) from an arbitrary reachable market state of 3 arenas over <=3 priority levels with symbolic demands <=7 (15 thorough) and any soft limit: allotments sum to min(total demand, limit) (exactly one mandatory worker at limit 0, to an arena with enqueued work), none exceeds its demand, higher priority is saturated first, split is proportional, and the number of threads requested from RML equals min(total, effective limit) for every int-valued total/limit/delta (inductive step over the serializer invariant). (2) Slots: for 2-3 threads entering and leaving one arena (workers via try_join/occupy_free_slot<true>/on_thread_leaving, externals via occupy_free_slot<false>) every interleaving within the round bound: slot indices pairwise distinct and below num_slots, workers never in reserved slots, my_limit covers occupied slots, reference word restored. (3) execute path: real occupy_free_slot<false> + nested_arena_context constructor/destructor with the observer callbacks as stubs, a second thread entering/leaving at every boundary call (enumerated placements): no two threads between on_scheduler_entry and on_scheduler_exit share an index, the slot is still owned when on_scheduler_exit runs, one exit per entry. (4) Isolation: arena_slot::get_task and steal_task on pools of 3 entries with symbolic 64-bit isolation tags only return tasks of the waiter\'s isolation scope and leave every skipped task in place.',
+  level_note='Bounds per harness in evidence. Callers that contain the dispatch loop (arena::process, task_arena_impl::execute) are cut: thread bodies replay their call sequence around the slot window; arenas are white-box storage with the constructor\'s scalar fields (real allocate_arena too heavy). Outside the claim: isolation filtering of the affinity mailbox and the critical task stream (queries did not come under control), the dispatch loop, global_control, observer pairing outside the execute path, the end-to-end L-1 worker count, concurrent aggregation in thread_request_serializer::update, more than 3 arenas/threads/slots, non-SC memory. Trusted: clang-14 IR, tools/ir2c.py (selftest differential on the sequential units), cbmc.',
 )
 OUTSIDE = [
   'isolation filtering of the affinity mailbox (mail_outbox::internal_pop / get_mailbox_task) and of the critical task stream (task_stream::pop_specific): harness code exists (h_iso.c SRC 2/3) but the queries did not come under control (atomic pointers pass through integer casts in the IR; no verdict in 250 s even for 1-2 entries)',
   'the dispatch loop itself (local_wait_for_all / receive_or_steal_task): that a waiter passes its own isolation tag to these functions is read from the source, not checked',
-  'global_control (std::set of controls lives in libstdc++), observer entry/exit pairing, the end-to-end "at most L-1 workers execute user work" statement (needs RML + dispatcher)',
+  'global_control (std::set of controls lives in libstdc++), the end-to-end "at most L-1 workers execute user work" statement (needs RML + dispatcher)',
+  'observer entry/exit pairing is checked only on the task_arena::execute path (nested_arena_context) with another thread preempting at boundary calls; the worker path (arena::process), the delegated-task path of a saturated arena and observer_proxy.cpp itself (do_notify_* walking the observer list) are outside; finer-than-boundary interleavings of the execute path did not come under control in thread mode (477 k SSA steps, out of memory)',
   'concurrent aggregation in thread_request_serializer::update (several threads adding to the packed pending counter at once): sequential path only; the packed 32-bit delta field holds any single int, sums of simultaneously pending deltas must stay inside it',
   'market with more than 3 arenas or demands above 15; tcm_adaptor (TCM permit manager)',
   'more than 3 threads / 3 slots in the slot harness; 3 threads with more than 1 free round, two visits per thread with 2 free rounds (1.4-1.6 M variables, 30-60 min each on the shared machine, one run killed) ; non-TSO weak memory',
@@ -139,6 +146,8 @@ STUBS = [
   'tcm_adaptor::is_initialized: false (market is the permit manager)',
   'threading_control::prepare_client_destruction / try_destroy_client (slots): never asked to destroy (asserted)',
   'arena::advertise_new_work<wakeup> (isolation): cut, calls counted',
+  'observer_list::do_notify_entry_observers / do_notify_exit_observers (exec_leave): the user callbacks; contract: entry sets `last` to the tail proxy',
+  'concurrent_monitor::notify_one_relaxed on my_exit_monitors (exec_leave): cut, nobody waits; threading_control::adjust_demand: records the delta',
   'arena::process, task_arena_impl::execute (FPU inline asm, dispatch loop): cut; the thread bodies of w_slots.cpp replay their call sequence around the slot window',
 ]
 ASSUMPTIONS = [
